@@ -598,6 +598,9 @@ func (e *Ev) nilCompare(op token.Token, a, b Term, n ast.Node) Term {
 	if x.Sort == "nil" {
 		return Term{S: ifs(op == token.EQL, "true", "false"), Sort: sBool}
 	}
+	if x.Sort != sInt && x.Sort != sSlice && x.Sort != sObj {
+		return e.errorf(n, "comparison of a %s value with nil (the contract no longer fits the declaration)", x.Sort)
+	}
 	z := e.nilOf(x)
 	r := smtEq(x.S, z)
 	if x.Sort == sSlice {
